@@ -11,6 +11,7 @@ From AV Require Import Base.Bytes Base.Outcome Hash.HashModel Tree.Heap Tree.Ops
   Tree.Sort Tree.Copy Tree.Load Tree.Compat Tree.Serialize Tree.Script2
   Tree.CopyProofsW Tree.CopyProofsDefs Tree.CopyProofsIrp Tree.CopyProofsIrpLib Tree.CopyProofsGrow Tree.CopyProofsIrpOps
   Tree.CopyProofsIndep Tree.CopyProofsIndep2 Tree.CopyProofsTwo.
+From AV Require Spec.SpecOps Tree.CopyProofsTiny.
 From Coq Require Import Lia PeanoNat.
 Open Scope string_scope.
 Open Scope list_scope.
@@ -142,4 +143,97 @@ Qed.
 Theorem LinkBound_reachable l w' : lb_ok l empty_world -> run_ops2 l empty_world = Val w' -> LinkBound w'.
 Proof. intros Hok H. eapply LinkBound_histories2; [apply LinkBound_empty|exact Hok|exact H]. Qed.
 
+(* ------------------------------------------------------------------ the two-sided theorems without the state hypothesis *)
+(* what is assumed of a tagged history: every operation works on one side, addresses existing things, is not the pending
+   load and not a failing duplicate *)
+Fixpoint two_wf (l : list (side * op2)) (s : sides) (w : world) : Prop :=
+  match l with
+  | [] => True
+  | (d, o) :: rest =>
+    apart_other d s o /\ op2_wf w o /\ ~ dup_failed w o /\
+    match run2 o w with
+    | Val (_, w') => two_wf rest (step_sides d s w w') w'
+    | _ => True
+    end
+  end.
+
+Lemma two_wf_ok l : forall s w, LinkBound w -> two_wf l s w ->
+  two_ok T tab_el tab_at tab_en check_fn float_parse float_fmt LATEST name_index name_definition_ref attr_schema_location
+         root_attrs l s w.
+Proof.
+  induction l as [|[d o] l IH]; intros s w LB H; cbn [two_wf two_ok] in *; [exact I|].
+  destruct H as (Ha & WF & ND & Hrest). split; [exact Ha|].
+  destruct (run2 o w) as [[r w']| |] eqn:E; try exact I.
+  assert (LB' : LinkBound w') by (eapply LinkBound_step2; eauto; exact (proj1 Ha)).
+  split; [exact LB'|]. apply IH; assumption.
+Qed.
+
+Theorem two_sided_wf l s w :
+  Two s w -> LinkBound w -> two_wf l s w ->
+  two_indep T tab_el tab_at tab_en check_fn float_parse float_fmt LATEST name_index name_definition_ref attr_schema_location
+            root_attrs l s w.
+Proof. intros HT LB H. apply two_sided; [exact HT|exact LB|apply two_wf_ok; assumption]. Qed.
+
+(* from the empty world: any history l0 (no load, no failing duplicate), then a successful duplicate, then any history of
+   one-sided operations: duplicate leaves everything that existed alone, and every later step leaves the side it does
+   not work on alone *)
+Theorem duplicate_then_independent_histories l0 m l w0 r w1 :
+  lb_ok l0 empty_world -> run_ops2 l0 empty_world = Val w0 ->
+  run2 (OpDuplicate m) w0 = Val (r, w1) -> ~ dup_failed w0 (OpDuplicate m) ->
+  two_wf l (after_dup w0 w1) w1 ->
+  Same (fun i => i < w_next w0) (fun k => k < lenM w0) (fun f => f < lenF w0) w0 w1 /\
+  Two (after_dup w0 w1) w1 /\
+  two_indep T tab_el tab_at tab_en check_fn float_parse float_fmt LATEST name_index name_definition_ref attr_schema_location
+            root_attrs l (after_dup w0 w1) w1.
+Proof.
+  intros Hok0 H0 E ND Hwf.
+  assert (LB0 : LinkBound w0) by (eapply LinkBound_reachable; eauto).
+  assert (LB1 : LinkBound w1).
+  { eapply (LinkBound_step2 (OpDuplicate m)); eauto. split; [intros i []|split; [intros k []|intros f []]]. }
+  destruct (duplicate_then_independent T tab_el tab_at tab_en check_fn float_parse float_fmt LATEST name_index name_definition_ref
+              attr_schema_location root_attrs m l w0 r w1 LB0 E LB1) as (Sm & HT & Hl).
+  split; [exact Sm|]. split; [exact HT|]. apply Hl. apply two_wf_ok; assumption.
+Qed.
+
 End Step.
+
+(* ------------------------------------------------------------------ the class dup_failed is not empty and does break
+   LinkBound: a tiny table set in which the only sub-element of the root exists in version 2 only; a model with that
+   sub-element whose only remaining file has version 1: duplicate() fails (the root's sub-element cannot be created in
+   the copy), the model drops the copy's record and file, and the copy's root node (id 2) stays behind with the parent
+   link PModel 1 although only model 0 exists *)
+Module TinyFail.
+Import SpecOps CopyProofsTiny.Tiny13.
+Definition tiny2 : tables :=
+  Build_tables (T_elements tiny) (n_elements tiny) (T_subelements tiny) (n_subelements tiny) (T_attributes tiny) (n_attributes tiny)
+    (fun i => if i =? 0 then Some 2 else T_version_info tiny i) (n_version_info tiny)
+    (T_datatypes tiny) (n_datatypes tiny) (T_ref_items tiny) (n_ref_items tiny) (T_cdata tiny) (n_cdata tiny)
+    (reference_type_idx tiny) (autosar_element tiny) (name_short_name tiny) (attr_dest tiny).
+Definition run2 := run_op tiny2 el el check_fn LATEST [].
+Definition dup2 := m_duplicate tiny2 el el check_fn LATEST [].
+Fixpoint run_script2 (ops : list op) (w : world) : res world :=
+  match ops with
+  | [] => Val w
+  | o :: r => match run2 o w with Val (_, w') => run_script2 r w' | Pan s => Pan s | Fuel => Fuel end
+  end.
+Definition script : list op :=
+  [OpNewModel; OpCreateFile 0 (BS "f") 2; OpCreateSub 0 nPKGS; OpCreateFile 0 (BS "g") 1; OpRemoveFile 0 0].
+Definition w_x : world := unval empty_world (run_script2 script empty_world).
+Definition w_x' : world := after (dup2 0 w_x).
+
+Lemma failed_duplicate_dangles :
+  run_script2 script empty_world = Val w_x /\
+  (exists e, dup2 0 w_x = Val (ER e, w_x')) /\
+  (exists n, w_nodes w_x' 2 = Some n /\ n_parent n = PModel 1) /\
+  List.length (w_models w_x') = 1%nat /\
+  ~ LinkBound w_x'.
+Proof.
+  assert (H1 : run_script2 script empty_world = Val w_x) by (vm_compute; reflexivity).
+  assert (H2 : exists e, dup2 0 w_x = Val (ER e, w_x')) by (eexists; vm_compute; reflexivity).
+  assert (H3 : exists n, w_nodes w_x' 2 = Some n /\ n_parent n = PModel 1) by (eexists; split; vm_compute; reflexivity).
+  assert (H4 : List.length (w_models w_x') = 1%nat) by (vm_compute; reflexivity).
+  split; [exact H1|]. split; [exact H2|]. split; [exact H3|]. split; [exact H4|].
+  intros (L1 & _). destruct H3 as (n & Hn & Hp). destruct (L1 2 n Hn) as (_ & _ & _ & Lm).
+  specialize (Lm 1 Hp). rewrite H4 in Lm. lia.
+Qed.
+End TinyFail.
